@@ -299,7 +299,7 @@ func Main(t *testing.T, h Harness) {
 			wo.Oracles[sig]++
 			perSig[sig]++
 			if perSig[sig] <= 2 && len(wo.Violations) < maxViol {
-				min := h.shrink(t, res.Tape, tier, sig, 20*time.Second)
+				min := h.shrink(t, res.Tape, tier, sig, 8*time.Second)
 				rr := h.runOnce(t, simrt.NewTape(min), tier, true)
 				rec := ViolationRecord{Property: h.ID, Oracle: res.Violation.Oracle, Signature: sig, Detail: res.Violation.Detail, Seed: seed, RunIndex: i, TapeLen: len(res.Tape), MinLen: len(min)}
 				if rr.Violation != nil && h.sig(rr.Violation) == sig {
